@@ -774,6 +774,13 @@ func (t *Terminal) readLine() (line string, err error) {
 			return
 		}
 
+		// a partial key sequence that fills the whole buffer can never be
+		// completed: drop it, or every further Read gets a zero-length buffer
+		// and returns at once, forever
+		if len(t.remainder) == len(t.inBuf) {
+			t.remainder = nil
+		}
+
 		// t.remainder is a slice at the beginning of t.inBuf
 		// containing a partial key sequence
 		readBuf := t.inBuf[len(t.remainder):]
